@@ -18,7 +18,7 @@ def run(ctx):
     only = [x for x in os.environ.get("VERIF_C06_STAGES", "").split(",") if x]   # debugging aid: subset of page,sweep,idxa,idxk
 
     def stages(ctx, mult, suffix, off):
-        hdr = HDR.format(imports="model.C05_model model.C06_model model.C06_unix model.C06_mounts model.C06_run")
+        hdr = HDR.format(imports="model.C05_model model.C06_model model.C06_unix model.C06_mounts model.C06_azure model.C06_run")
 
         def stage(name, *a, **kw):
             if only and not any(name.startswith("c06" + o) for o in only):
@@ -40,6 +40,9 @@ def run(ctx):
             stage("c06unix", "services/keepstore", "main", ["C06/zz_verif_c06_unixidx_test.go"], "TestVerifC06UnixIndex$",
                   (80 if q else 2000) * mult, hdr, shard=40 if q else 250)
 
+            stage("c06azure", "services/keepstore", "main", ["C06/zz_verif_c06_azureidx_test.go"], "TestVerifC06AzureIndex$",
+                  (40 if q else 1000) * mult, hdr, shard=40 if q else 250)
+
         def idxa():
             stage("c06idxa", "sdk/go/arvados", "arvados", ["C06/zz_verif_c06_idxa_test.go"], "TestVerifC06IndexA$",
                   nidx * mult, hdr, shard=100)
@@ -58,8 +61,11 @@ def run(ctx):
                          "page sizes 1..N+1 and 'maximum', event schedules none/sparse/busy/same-timestamp, rows inserted with old timestamps in 1/10, one failing request or callback in 1/4, 8 failure kinds (500, cut JSON, transport error, 503, status 200 with an empty body, the real answer cut at byte 0/1/middle/last, "
                          "body reader failing after that many bytes, white space only), every request index in turn answered 200 with an empty / partial body "
                          "(non-trivial = population >= 2 and >= 3 requests); c06sweep: Balancer.Run against a stub cluster with an unshadowed read-only mount holding replicas (every third configuration: always), shadowed read-only views, "
-                         "read-only services, blank device ids, Replication 0-2, storage classes; once per request index with that request failing with HTTP 500, once more with a "
+                         "read-only services, blank device ids on read-write and read-only mounts (every third configuration: both at once), Replication 0-2, storage classes; the mounts whose index "
+                         "was requested are recorded per run; once per request index with that request failing with HTTP 500, once more with a "
                          "failure kind drawn per request (transport error, 404, 503 non-JSON, 200 with an unexpected body), every GET once more with status 200 and an empty body, index requests also cut short (non-trivial: all); "
+                         "c06azure: the real handler over a real AzureBlobVolume against a stub blob service: 0-7 blobs two per page (non-block names, trashed blobs), ListBlobsMaxAttempts 1-3, per page a script "
+                         "(ok; busy x1-3 then ok; busy every time; 500; busy then 500) (non-trivial = >= 2 pages); "
                          "c06unix: the real handler over a real Directory volume: 1-4 healthy block directories (0-3 block files and non-block files each), 0-2 unreadable root entries "
                          "(regular file / link to a file with a hex name, dangling link, link loop), a link to a healthy directory, names to ignore, prefix in 1/3, shuffled creation order "
                          "(non-trivial = >= 2 root entries); "
